@@ -609,7 +609,7 @@ def _large_case(rng, which):
 THRESHOLDS = [255, 256, 257, 32767, 32768, 32769, 65535, 65536, 65537]
 
 
-def _threshold_case(rng, which, N):
+def _threshold_case(rng, which, N, gap=None):
     """a plateau / background region / hole / row of N (+ a little) pixels, N around 2^8, 2^15, 2^16: a counter, flat index or
     stack index narrowed to 8 or 16 bits passes every small case and fails here"""
     layout = rng.choice(['C', 'C', 'F', 'readonly'])
@@ -630,9 +630,15 @@ def _threshold_case(rng, which, N):
         n = int(np.prod(shape))
         if which == 'reg':
             data = [1] * n                                   # one plateau of n (minus a few) pixels ...
-            for _ in range(rng.choice([0, 1, 1, 2, 4])):     # ... and a few distinct pixels (first / last / index N included)
-                data[rng.choice([0, n - 1, min(n - 1, N), min(n - 1, N - 1), rng.randrange(n)])] = rng.choice([0, 2])
             op = rng.choice(['regmax', 'regmin'])
+            k = rng.choice([1, 1, 2, 4])                     # ... and a few distinct pixels (first / last / index N included);
+            for j in range(k):                               # the first one, at the far end, spoils the plateau: the scan must
+                if j == 0:                                   # reach it and the flood must unmark all n - k pixels
+                    data[rng.choice([n - 1, min(n - 1, N), n - 2])] = 2 if op == 'regmax' else 0
+                else:
+                    i = rng.choice([0, n - 1, min(n - 1, N - 1), rng.randrange(n)])
+                    if data[i] == 1:
+                        data[i] = rng.choice([0, 2])
         else:
             data = []
             while len(data) < n:
@@ -658,8 +664,11 @@ def _threshold_case(rng, which, N):
             h, w = w, h
         A = np.zeros((h, w), int)
         A[0, :] = 1; A[-1, :] = 1; A[:, 0] = 1; A[:, -1] = 1
-        if rng.random() < 0.5:
-            if rng.random() < 0.5:
+        if (rng.random() < 0.5) if gap is None else gap:
+            r = rng.random()
+            if r < 0.4:
+                A[h - 1, w - 2] = 0          # the last border pixels the seeding loop visits
+            elif r < 0.7:
                 A[rng.choice([0, h - 1]), rng.randint(1, w - 2)] = 0
             else:
                 A[rng.randint(1, h - 2), rng.choice([0, w - 1])] = 0
@@ -747,10 +756,12 @@ def cases(rng, tier):
     # size-threshold stream: quick one case per operation family (2^16 twice, the others drawn), thorough every threshold
     kinds = ('reg', 'holes', 'loc', 'hitmiss')
     if tier == 'quick':
-        ns = [rng.choice([65536, 65537]), rng.choice([65536, 65537]), rng.choice(THRESHOLDS), rng.choice(THRESHOLDS)]
-        rng.shuffle(ns)
-        for which, N in zip(kinds, ns):
-            out.append(_threshold_case(rng, which, N))
+        # the flood users always at 2^16 (a hole that is filled and a region the flood enters through a gap), the others drawn
+        out.append(_threshold_case(rng, 'reg', rng.choice([65536, 65537])))
+        out.append(_threshold_case(rng, 'holes', rng.choice([65536, 65537]), gap=True))
+        out.append(_threshold_case(rng, 'holes', rng.choice([65535, 65536, 65537]), gap=False))
+        out.append(_threshold_case(rng, 'loc', rng.choice(THRESHOLDS)))
+        out.append(_threshold_case(rng, 'hitmiss', rng.choice([32767, 32768, 65535, 65536, 65537])))
     else:
         for i, N in enumerate(THRESHOLDS * (3 if tier == 'thorough' else 1)):
             out.append(_threshold_case(rng, kinds[i % 4] if tier != 'thorough' else kinds[(i + i // 9) % 4], N))
